@@ -171,6 +171,20 @@ def real_timeouts(tier, budget):
     if not budget.allow("reproduction of known findings F-C14a/b"):
         return {"name": "real-timeouts", "evaluations": evals, "failures": fails,
                 "note": budget.note() + "real children through Local (see the thorough tier for the full list)"}
+    # F-C14d: disown=True returns before start_timer: a timeout is silently not in effect
+    evals += 1
+    r = rc.run_real("exec sleep 4", hide=True, in_stream=False, disown=True, timeout=0.3, bound=10)
+    time.sleep(1.2)
+    st = rc.proc_state(r["pid"]) if r.get("pid") else None
+    if st not in (None, "Z"):
+        try:
+            os.kill(r["pid"], 9)
+        except OSError:
+            pass
+        fails.append({"case": {"cmd": "exec sleep 4", "disown": True, "timeout": 0.3}, "finding": "F-C14d",
+                      "what": "1.2 s after a disowned run with timeout=0.3 the command is still running (state %s): "
+                              "no timer was armed" % st})
+    r = None
     # F-C14a: the shell exits 0 at once, a background child keeps the pipes for 4 s, the timer fires at 1 s
     evals += 1
     r = rc.run_real("(sleep 4 &); exit 0", hide=True, in_stream=False, timeout=1, bound=25)
@@ -237,7 +251,9 @@ def program_timeout_sources(tier):
     try:
         combos = [set(c) for k in range(6) for c in itertools.combinations(sorted(VAL), k)]
         combos.append({"cli0", "file"})            # -T 0 is dropped by `if command:`; the configured value stays
-        for n, srcs in enumerate(combos):
+        # every combination through c.run(); through c.sudo() the ones where the keyword matters most
+        plan = [("run", s) for s in combos] + [("sudo", s) for s in combos if len(s) <= 2 or "kwarg" in s]
+        for n, (method, srcs) in enumerate(plan):
             d = os.path.join(root, "p%d" % n)
             os.mkdir(d)
             with open(os.path.join(d, "ptasks.py"), "w") as f:
@@ -252,9 +268,9 @@ def program_timeout_sources(tier):
                 kwargs["timeout"] = VAL["kwarg"]
             rec = {}
 
-            def body(c, kwargs=kwargs, rec=rec):
+            def body(c, kwargs=kwargs, rec=rec, method=method):
                 try:
-                    c.run("scripted", **kwargs)
+                    getattr(c, method)("scripted", **kwargs)
                 except Exception as e:   # noqa
                     rec["exc"] = type(e).__name__
             _PROG["body"] = body
@@ -284,7 +300,8 @@ def program_timeout_sources(tier):
             got = None if timer is None else timer.interval
             is_num = got is None or (isinstance(got, (int, float)) and not isinstance(got, bool))
             lower = VAL["env"] if "env" in srcs else VAL["file"] if "file" in srcs else VAL["coll"] if "coll" in srcs else None
-            case = {"sources": sorted(srcs), "armed_interval": repr(got), "outer": outer, "ran": len(made)}
+            case = {"method": method, "sources": sorted(srcs), "armed_interval": repr(got), "outer": outer,
+                    "ran": len(made)}
             if len(made) != 1:
                 fails.append({"case": case, "what": "the task's run() was not reached exactly once"})
                 continue
@@ -307,8 +324,8 @@ def program_timeout_sources(tier):
         f = {"case": case, "what": "timeout in effect differs from 'keyword > -T > environment variable > project "
                                    "file > collection configuration': Timer interval %s" % case["armed_interval"]}
         fails.append(f)          # (the env-only case was F-C14c, fixed: start_timer converts with float())
-    return {"name": "program-timeout-sources", "evaluations": len(combos), "failures": fails,
-            "note": "real Program.run over all 32 combinations of {timeout= keyword, -T, INVOKE_TIMEOUTS_COMMAND, "
+    return {"name": "program-timeout-sources", "evaluations": len(plan), "failures": fails,
+            "note": "real Program.run, task body c.run(...) or c.sudo(...), over all 32 combinations of {timeout= keyword, -T, INVOKE_TIMEOUTS_COMMAND, "
                     "project invoke.yaml, collection configuration} (+ -T 0 with a project file); observed: the "
                     "Timer armed by the real start_timer inside the scripted runner; judged in Coq by "
                     "Corr.C14Corr.pcorr (rule proved equal to the Program/option model: C14_timeout_source_program)"}
